@@ -8,7 +8,7 @@ import os
 D = "/verif/coq/Properties"
 IMPORTS = ("From CB Require Import Spec Unstable.\nFrom Coq Require Import Permutation.\n"
            "From CBP Require Import Step RefDefs C02Lemmas Arith AbsLemmas AllOps FaultDefs FaultPrims FaultDropA FaultDropB FaultUser\n"
-           "     Iters DrainP ExtendIo CmpHash Ctors PhysMoves MoreOps UnstableEq Access Views RefTruncate FillExtend FaultFrame SpecCorollaries%s.\n")
+           "     Iters DrainP ExtendIo CmpHash Ctors PhysMoves MoreOps UnstableEq Access Views RefTruncate FillExtend FaultFrame SpecCorollaries ValueCorollaries FaultGeneric FaultHistory%s.\n")
 
 P = {}
 
@@ -145,6 +145,21 @@ P["C05"] = ("""C05 — a panicking element destructor never causes a second drop
     ("C05_frame_refines", """forall o fk s w k,
   may_call o fk = false -> WF s -> op_ok s o -> fault w = Some (fk, k) ->
   refines_at_armed o s w fk k""", "fault_frame_refines"),
+    ("C05_history", """forall (s0 : cbuf) (w0 : world),
+  WF s0 -> plan_nonneg (fault w0) -> NoDup (FaultDefs.ids (abs s0)) ->
+  (forall e : elem, In e (abs s0) -> eid e < next_id w0) ->
+  forall (ops : list op) (rs : list (outcome out)) (s : cbuf) (w : world) (L : fledger),
+  fault_run s0 w0 ops rs s w L ->
+  Forall outcome_ok rs /\\
+  (user_panics rs <= 1)%nat /\\
+  (user_panics rs = 1%nat -> fault w = None) /\\
+  (fault w0 = None -> user_panics rs = 0%nat) /\\
+  WF s /\\ cap s = cap s0 /\\
+  NoDup (FaultDefs.ids (abs s ++ fl_caller L ++ fl_destroyed L)) /\\
+  incl (abs s ++ fl_caller L ++ fl_destroyed L) (fl_entered L) /\\
+  NoDup (FaultDefs.ids (fl_entered L)) /\\
+  (forall e : elem, In e (fl_entered L) -> eid e < next_id w) /\\
+  FaultGeneric.plan_step (fault w0) (fault w)""", "fault_history"),
     ("C05_drain", "forall sb eb script, fault_safe_when (fun s => spec_bounds (size s) sb eb <> None) (ODrain sb eb script false) FDrop", "drain_fault"),
 ])
 
@@ -158,6 +173,35 @@ P["C06"] = ("""C06 — a panic in user code (Clone, closure, iterator, eq, cmp, 
     ("eq", "other", "OEq other", "eq_fault"), ("eq_slice", "form xs", "OEqSlice form xs", "eq_slice_fault")]) + faults("C06", "FCmp", [
     ("partial_cmp", "other", "OPartialCmp other", "partial_cmp_fault"), ("cmp", "other", "OCmp other", "cmp_fault")]) + faults("C06", "FHash", [
     ("hash", "", "OHash", "hash_fault")]) + faults("C06", "FFmt", [("debug", "", "ODebug", "debug_fault")]) + [
+    ("C06_history", """forall (s0 : cbuf) (w0 : world),
+  WF s0 -> plan_nonneg (fault w0) -> NoDup (FaultDefs.ids (abs s0)) ->
+  (forall e : elem, In e (abs s0) -> eid e < next_id w0) ->
+  forall (ops : list op) (rs : list (outcome out)) (s : cbuf) (w : world) (L : fledger),
+  fault_run s0 w0 ops rs s w L ->
+  Forall outcome_ok rs /\\
+  (user_panics rs <= 1)%nat /\\
+  (user_panics rs = 1%nat -> fault w = None) /\\
+  (fault w0 = None -> user_panics rs = 0%nat) /\\
+  WF s /\\ cap s = cap s0 /\\
+  NoDup (FaultDefs.ids (abs s ++ fl_caller L ++ fl_destroyed L)) /\\
+  incl (abs s ++ fl_caller L ++ fl_destroyed L) (fl_entered L) /\\
+  NoDup (FaultDefs.ids (fl_entered L)) /\\
+  (forall e : elem, In e (fl_entered L) -> eid e < next_id w) /\\
+  FaultGeneric.plan_step (fault w0) (fault w)""", "fault_history"),
+    ("C06_history_no_leak", """forall (s0 : cbuf) (w0 : world),
+  WF s0 -> plan_nonneg (fault w0) -> NoDup (FaultDefs.ids (abs s0)) ->
+  (forall e : elem, In e (abs s0) -> eid e < next_id w0) ->
+  forall (ops : list op) (rs : list (outcome out)) (s : cbuf) (w : world) (L : fledger) (fk : fkind) (k : Z),
+  fault_run s0 w0 ops rs s w L -> fault w0 = Some (fk, k) -> fk <> FDrop ->
+  exists lost : list elem,
+    Permutation (abs s ++ fl_caller L ++ fl_destroyed L ++ lost) (fl_entered L) /\\
+    incl lost (fl_at_risk L) /\\ (user_panics rs = 0%nat -> lost = [] /\\ fl_at_risk L = [])""", "fault_history_no_leak"),
+    ("C06_history_lookers_conserve", """forall (s0 : cbuf) (w0 : world),
+  WF s0 -> plan_nonneg (fault w0) -> NoDup (FaultDefs.ids (abs s0)) ->
+  (forall e : elem, In e (abs s0) -> eid e < next_id w0) ->
+  forall (ops : list op) (rs : list (outcome out)) (s : cbuf) (w : world) (L : fledger) (fk : fkind) (k : Z),
+  fault_run s0 w0 ops rs s w L -> fault w0 = Some (fk, k) -> looks_only fk = true ->
+  Permutation (abs s ++ fl_caller L ++ fl_destroyed L) (fl_entered L)""", "fault_history_no_leak_looks"),
     ("C06_frame", """forall o fk s w k,
   may_call o fk = false -> fault w = Some (fk, k) ->
   exec o s w =
@@ -210,6 +254,16 @@ P["C07"] = ("""C07 — all views of the contents agree; mutable views alias exac
     ("C07_distinct_slots", """forall s i j,
   0 < cap s -> 0 <= start s < cap s -> 0 <= i < cap s -> 0 <= j < cap s ->
   phys s i = phys s j -> i = j""", "phys_inj"),
+])
+
+P["C07"] = (P["C07"][0], P["C07"][1], P["C07"][2] + [
+    ("C07_as_mut_slices_distinct", """forall ws s w a b s' w',
+  WF s -> exec (OAsMutSlicesSet ws) s w = (Ok (OutSlices a b), s', w') ->
+  map fst (a ++ b) = map (phys s) (zseq 0 (Z.to_nat (size s))) /\\
+  NoDup (map fst (a ++ b)) /\\ map snd (a ++ b) = abs s""", "as_mut_slices_slots_distinct"),
+    ("C07_iter_mut_distinct", """forall script s w rs s' w',
+  WF s -> exec (OIterMut script) s w = (Ok (OutScript rs), s', w') ->
+  NoDup (slots_of rs) /\\ incl (slots_of rs) (map (phys s) (zseq 0 (Z.to_nat (size s))))""", "iter_mut_slots_distinct"),
 ])
 
 P["C08"] = ("""C08 — borrowing and owning iterators obey the double-ended exact-size
@@ -324,6 +378,17 @@ P["C12"] = ("""C12 — constructors and conversions give the specified contents,
     ("clone_then_drop", "", "OCloneDropClone"), ("clone_then_keep", "", "OCloneKeepClone"),
     ("clone_from", "other", "OCloneFrom other"), ("to_vec", "", "OToVec"), ("into_iter", "script", "OIntoIter script")]))
 
+P["C12"] = (P["C12"][0], P["C12"][1], P["C12"][2] + [
+    ("C12_clone_shares_nothing", """forall s w v s' w',
+  WF s -> fault w = None -> allocated w (abs s) ->
+  exec OCloneKeepClone s w = (Ok v, s', w') ->
+  vals (abs s') = vals (abs s) /\\ disjoint_ids (abs s') (abs s) /\\ NoDup (ids (abs s'))""", "clone_disjoint"),
+    ("C12_to_vec_shares_nothing", """forall s w cs s' w',
+  WF s -> fault w = None -> allocated w (abs s) ->
+  exec OToVec s w = (Ok (OutList cs), s', w') ->
+  vals cs = vals (abs s) /\\ disjoint_ids cs (abs s) /\\ NoDup (ids cs) /\\ abs s' = abs s""", "to_vec_disjoint"),
+])
+
 P["C13"] = ("""C13 — equality, ordering, hashing and Debug depend only on the logical
    contents: the results and the element-level comparisons performed are those
    of [spec_eq] / [spec_cmp] on [abs a], [abs b] (any capacities, any layouts:
@@ -340,12 +405,62 @@ P["C13"] = ("""C13 — equality, ordering, hashing and Debug depend only on the 
     ("drain_debug", "sb eb pre", "ODrainDebug sb eb pre"),
     ("into_iter_debug", "pre", "OIntoIterDebug pre")]))
 
+P["C13"] = (P["C13"][0], P["C13"][1], P["C13"][2] + [
+    ("C13_eq_iff_equal_sequences", """forall a b w r a' w',
+  WF a -> WF b -> fault w = None ->
+  exec (OEq b) a w = (Ok (OutBool r), a', w') ->
+  (r = true <-> vals (abs a) = vals (abs b)) /\\ abs a' = abs a""", "exec_eq_iff"),
+    ("C13_eq_slice_iff", """forall form xs a w r a' w',
+  WF a -> zlen xs < W -> fault w = None ->
+  exec (OEqSlice form xs) a w = (Ok (OutBool r), a', w') ->
+  (r = true <-> vals (abs a) = vals xs) /\\ abs a' = abs a""", "exec_eq_slice_iff"),
+    ("C13_ordering_lexicographic", """forall a b w r a' w',
+  WF a -> WF b -> fault w = None ->
+  exec (OPartialCmp b) a w = (Ok (OutOrd r), a', w') ->
+  r = Some (lex_compare (vals (abs a)) (vals (abs b))) /\\ abs a' = abs a""", "exec_cmp_lex"),
+    ("C13_equal_contents_hash_equally", """forall a b w va a' wa vb b' wb,
+  WF a -> WF b -> fault w = None -> abs a = abs b ->
+  exec OHash a w = (Ok va, a', wa) -> exec OHash b w = (Ok vb, b', wb) ->
+  log wa = log wb""", "exec_hash_same"),
+    ("C13_observers_layout_free", """forall o a1 a2 w,
+  observer o -> WF a1 -> WF a2 -> cap a1 = cap a2 -> abs a1 = abs a2 ->
+  fault w = None -> op_ok a1 o ->
+  fst (fst (exec o a1 w)) = fst (fst (exec o a2 w)) /\\
+  snd (exec o a1 w) = snd (exec o a2 w) /\\
+  exists v, fst (fst (exec o a1 w)) = Ok v""", "observers_layout_free"),
+])
+
 P["C14"] = ("""C14 — byte-stream I/O: write accepts everything and keeps the newest N
    bytes, read copies min(len) bytes from the front and removes them, fill_buf
    returns a non-empty prefix when non-empty, consume removes min(k, len); never
    an error or panic, any capacity including 0.""", "", ops("C14", [
     ("write", "src", "OWrite Std src"), ("flush", "", "OFlush Std"), ("read", "dst", "ORead Std dst"),
     ("fill_buf", "", "OFillBuf Std"), ("consume", "k", "OConsume Std k")]))
+
+P["C14"] = (P["C14"][0], P["C14"][1], P["C14"][2] + [
+    ("C14_write_keeps_newest", """forall fam src s w v s' w',
+  WF s -> fault w = None -> zlen src < W ->
+  exec (OWrite fam src) s w = (Ok v, s', w') ->
+  v = OutZ (zlen src) /\\
+  vals (abs s') = lastn (Z.to_nat (cap s)) (vals (abs s) ++ vals src) /\\
+  zlen (abs s') = Z.min (cap s) (zlen (abs s) + zlen src)""", "exec_write_vals"),
+    ("C14_read_from_front", """forall fam dst s w n dst' s' w',
+  WF s -> fault w = None -> zlen dst < W ->
+  exec (ORead fam dst) s w = (Ok (OutRead n dst'), s', w') ->
+  let k := Nat.min (length dst) (length (abs s)) in
+  n = Z.of_nat k /\\ dst' = firstn k (abs s) ++ skipn k dst /\\ abs s' = skipn k (abs s)""", "exec_read_vals"),
+    ("C14_fill_buf_prefix", """forall fam s w p s' w',
+  WF s -> fault w = None ->
+  exec (OFillBuf fam) s w = (Ok (OutList p), s', w') ->
+  (exists t, abs s = p ++ t) /\\ (abs s <> [] -> p <> []) /\\ abs s' = abs s /\\ w' = w""", "exec_fill_buf_prefix"),
+    ("C14_consume_front", """forall fam k s w v s' w',
+  WF s -> fault w = None -> 0 <= k < W ->
+  exec (OConsume fam k) s w = (Ok v, s', w') ->
+  abs s' = skipn (Z.to_nat (Z.min k (zlen (abs s)))) (abs s)""", "exec_consume_vals"),
+    ("C14_never_fails", """forall o s w,
+  io_op o -> WF s -> fault w = None ->
+  exists v s' w', exec o s w = (Ok v, s', w') /\\ WF s' /\\ cap s' = cap s""", "io_never_fails"),
+])
 
 fam_eqs = []
 for fam in ("eio", "aio"):
